@@ -2,7 +2,8 @@
 
 GEN    System.tla: TLC enumerates every history of {compile, apply a compiled
        query, find via an environment / the module functions, register a function,
-       create an environment subclass} over three environments, six query texts
+       create an environment subclass, the user
+       editing a document in place} over three environments, six query texts
        (a '$'-rooted sub-query in a filter, a registry-dependent call, nested
        filter + descendant, match and search with the same pattern, an index out
        of the subclass's range, an invalid text) and three documents (two equal
@@ -27,6 +28,12 @@ def _docs():
     d1 = {"x": 1, "k1": {"a": 1, "s": "ab"}, "k2": {"a": 2, "s": "xaby"}, "k3": [1, [1, 2], 2]}
     d3 = {"x": 2, "k1": {"a": 1}, "k2": {"a": 2, "s": "a"}, "k3": [2, [2], "a\n"]}
     return {"d1": d1, "d2": copy.deepcopy(d1), "d3": d3}
+
+
+def _d3(version):
+    if version == "alt":
+        return {"x": 1, "k1": {"a": 2}, "k2": {"a": 2, "s": "a"}, "k3": [2, [2], "a\n"]}
+    return {"x": 2, "k1": {"a": 1}, "k2": {"a": 2, "s": "a"}, "k3": [2, [2], "a\n"]}
 
 
 QTEXT = {"q1": "$[?@.a == $.x]", "q2": "$[?f(@.a)]", "q3": "$..[?@[?@ == $.x]]",
@@ -106,6 +113,14 @@ class World:
             self.env(entry["e"]).function_extensions["f"] = self.Const(entry["b"])
             self.model_f[entry["e"]] = entry["b"]
             return None
+        if op == "edit":
+            # the user edits the document IN PLACE: same objects, new content
+            new = _d3(entry["to"])
+            doc = self.docs[entry["d"]]
+            doc["x"] = new["x"]
+            doc["k1"]["a"] = new["k1"]["a"]
+            self.pristine[entry["d"]] = copy.deepcopy(doc)
+            return None
         if op == "newsub":
             Const = self.Const
 
@@ -166,7 +181,7 @@ def _flat(v):
 def run(chk: core.Check, tier: str, seed: int) -> None:
     core.import_repo()
     maxops = 3 if tier == "quick" else 4
-    base = ("SPECIFICATION Spec\nCONSTANTS\n  QText <- MCQText\n  DocVal <- MCDocVal\n  MaxOps = {m}\n  MaxHandles = {h}\n"
+    base = ("SPECIFICATION Spec\nCONSTANTS\n  QText <- MCQText\n  DocVal <- MCDocVal\n  DocAlt <- MCDocAlt\n  MaxOps = {m}\n  MaxHandles = {h}\n"
             "INVARIANT Repeatable\nINVARIANT {exp}\nCHECK_DEADLOCK FALSE\n")
     res = core.require_ok(core.run_tlc("MC_System", base.format(m=maxops, h=2, exp="ExportAll") + "VIEW View\n",
                                        name="mc_system", heap="12g", timeout=3000), "MC_System")
@@ -188,7 +203,7 @@ def run(chk: core.Check, tier: str, seed: int) -> None:
         verdicts = [v for ch in pool.map(_replay_many, chunks) for v in ch]
     for g, bad in zip(gens, verdicts):
         chk.evaluations += 1
-        ops = tuple((e["op"], e.get("e"), e.get("q"), e.get("h"), e.get("d"), e.get("b")) for e in g["hist"])
+        ops = tuple((e["op"], e.get("e"), e.get("q"), e.get("h"), e.get("d"), e.get("b"), e.get("to")) for e in g["hist"])
         if any(e["op"] in ("apply", "find") and e.get("resp") not in ([], ["error"]) for e in g["hist"]):
             chk.nontrivial.add(ops)
         if bad:
